@@ -331,6 +331,55 @@ class BoolVec:
         return len(self.vals)
 
 
+class BoolMat:
+    """2-D boolean array: row assignment/read, leading-row slices (copies, frozen: numpy would give a view)"""
+
+    def __init__(self, rows, frozen=False):
+        self.rows = [list(r) for r in rows]
+        self.ncols = len(self.rows[0]) if self.rows else 0
+        self.shape = (len(self.rows), self.ncols)
+        self.frozen = frozen
+
+    def _ix(self, i):
+        if not isinstance(i, int) or isinstance(i, bool) or not (-len(self.rows) <= i < len(self.rows)):
+            raise IndexError('index %r is out of bounds for axis 0 with size %d' % (i, len(self.rows)))
+        return i
+
+    def __setitem__(self, key, v):
+        if self.frozen:
+            raise Unsupported('write through a slice view of a boolean matrix')
+        if isinstance(key, tuple) and len(key) == 2 and all(isinstance(k, int) for k in key):
+            if not (-self.ncols <= key[1] < self.ncols):
+                raise IndexError('column index out of bounds')
+            self.rows[self._ix(key[0])][key[1]] = bool(v)
+            return
+        if isinstance(key, slice):
+            idx = range(*key.indices(len(self.rows)))
+        else:
+            idx = [self._ix(key)]
+        for i in idx:
+            if isinstance(v, BoolVec):
+                if len(v) != self.ncols:
+                    raise ValueError('could not broadcast input array from shape (%d,) into shape (%d,)' % (len(v), self.ncols))
+                self.rows[i] = list(v.vals)
+            elif isinstance(v, (bool, int)):
+                self.rows[i] = [bool(v)] * self.ncols
+            else:
+                raise Unsupported('boolean matrix row assignment of %r' % type(v).__name__)
+
+    def __getitem__(self, key):
+        if isinstance(key, slice):
+            return BoolMat([self.rows[i] for i in range(*key.indices(len(self.rows)))], frozen=True)
+        if isinstance(key, int):
+            return BoolVec(self.rows[self._ix(key)])
+        if isinstance(key, tuple) and len(key) == 2 and all(isinstance(k, int) for k in key):
+            return self.rows[self._ix(key[0])][key[1]]
+        raise Unsupported('boolean matrix read form')
+
+    def __len__(self):
+        return len(self.rows)
+
+
 class Arr2:
     """2-D array of opaque cell values"""
 
@@ -339,6 +388,15 @@ class Arr2:
         self.shape = (len(self.rows), len(self.rows[0]) if self.rows else 0)
 
     def __setitem__(self, key, v):
+        if isinstance(key, BoolMat):
+            if key.shape != self.shape:
+                raise IndexError('boolean index did not match indexed array along axis %d; size of axis is %d but size of corresponding boolean axis is %d'
+                                 % ((0, self.shape[0], key.shape[0]) if key.shape[0] != self.shape[0] else (1, self.shape[1], key.shape[1])))
+            for r, row in enumerate(key.rows):
+                for c, flag in enumerate(row):
+                    if flag:
+                        self.rows[r][c] = v
+            return
         if not (isinstance(key, tuple) and len(key) == 2):
             raise Unsupported('array assignment form')
         i, m = key
@@ -370,6 +428,16 @@ class NumpyModule:
         if not isinstance(n, int):
             raise Unsupported('numpy.ones shape')
         return BoolVec([True] * n)
+
+    @staticmethod
+    def zeros(shape, dtype=None):
+        if dtype not in (bool, 'bool'):
+            raise Unsupported('numpy.zeros of a non-boolean dtype')
+        if isinstance(shape, int):
+            return BoolVec([False] * shape)
+        if isinstance(shape, tuple) and len(shape) == 2 and all(isinstance(x, int) for x in shape):
+            return BoolMat([[False] * shape[1] for _ in range(shape[0])])
+        raise Unsupported('numpy.zeros shape')
 
     def __getattr__(self, n):
         raise Unsupported('numpy.' + n)
